@@ -452,7 +452,7 @@ def explore(ctx, hs, drv, n_sched, n_load, n_tsan, label):
                 ctx.cov["traces_validated_against_impl"] += 1
         replay = dict(case=name, mode="sched", lines=lines, out=(res.lines[:300] if res else []))
         if res is not None and res.f25:
-            ctx.fail(dict(kind="resize-not-performed"), dict(replay, marker=res.f25),
+            ctx.fail(dict(kind="resize-not-performed", stage=(re.findall(r"stage-now=(\d+)", res.f25) or ["?"])[0]), dict(replay, marker=res.f25),
                      "file growth acknowledged by the log listener during the main copy but never performed (%s)" % res.f25)
         for kind, text in probs:
             if kind == "diverge" or kind == "corr":
@@ -487,7 +487,7 @@ def explore(ctx, hs, drv, n_sched, n_load, n_tsan, label):
                     continue
                 if rr.f25:
                     ctx.hist("f25-hit")
-                    ctx.fail(dict(kind="resize-not-performed"), dict(replay, marker=rr.f25),
+                    ctx.fail(dict(kind="resize-not-performed", stage=(re.findall(r"stage-now=(\d+)", rr.f25) or ["?"])[0]), dict(replay, marker=rr.f25),
                              "file growth acknowledged by the log listener during the main copy but never performed (%s)" % rr.f25)
                     continue
                 if rr.hang:
